@@ -220,6 +220,21 @@ class IrToPythonCompiler:
             self.emit(r"amount = amount % bits")
             self.emit("return x >> amount")
 
+        # Rotate left / right of a bits wide value:
+        self.emit("@staticmethod")
+        with self.func_def("irol(x, amount, bits):"):
+            self.emit(r"amount = amount % bits")
+            self.emit("x = x & ((1 << bits) - 1)")
+            self.emit("x = (x << amount) | (x >> (bits - amount))")
+            self.emit("return x & ((1 << bits) - 1)")
+
+        self.emit("@staticmethod")
+        with self.func_def("iror(x, amount, bits):"):
+            self.emit(r"amount = amount % bits")
+            self.emit("x = x & ((1 << bits) - 1)")
+            self.emit("x = (x >> amount) | (x << (bits - amount))")
+            self.emit("return x & ((1 << bits) - 1)")
+
         with self.func_def("alloca(self, amount):"):
             self.emit("ptr = len(self.stack)")
             self.emit("self.stack.extend(bytes(amount))")
@@ -470,7 +485,12 @@ class IrToPythonCompiler:
         op = ins.operation
         int_ops = {"/": "rt.idiv", "%": "rt.irem"}
 
-        shift_ops = {">>": "rt.ishr", "<<": "rt.ishl"}
+        shift_ops = {
+            ">>": "rt.ishr",
+            "<<": "rt.ishl",
+            "rol": "rt.irol",
+            "ror": "rt.iror",
+        }
 
         if op in int_ops and ins.ty.is_integer:
             fname = int_ops[op]
